@@ -86,6 +86,12 @@ class C02(common.Spec):
             def _event_set(self, *, value, **_data):
                 self.set_output(value)
 
+            def stop(self):
+                # a last assignment made while the circuit is being stopped (a block switching itself
+                # 'off'): an assignment like any other
+                if len(values) % 2 == 0:
+                    self.set_output(values[0])
+
         def build():
             dests = [Dest(f"d{i}") for i in range(4)]
             def mk(cfgs):
@@ -188,7 +194,8 @@ class C02(common.Spec):
         if case['sender'] != 'cblock' and len(assigns) < len(values):
             # every value given to a sequential sender is an output assignment ("changed or not")
             stray += len(values) - len(assigns)
-        return dict(assigns=assigns, groups=groups, stray=stray, final=res.value, identity=ident)
+        final = enc(sender[0].output) if sender else res.value     # (after the stop)
+        return dict(assigns=assigns, groups=groups, stray=stray, final=final, identity=ident)
 
     def emit(self, case, obs):
         def cfg(e):
